@@ -23,13 +23,13 @@ INFO = dict(
               'raise. Oracle at quiescence: applying the delivered joins/leaves in order leaves exactly the members present in the tree; no member '
               'joins twice or leaves twice without the opposite event in between; a raising callback does not stop later notifications. '
               'The solver decides orderings and name aliasing only: the weakest fit of the technique among the claimed properties.',
-  bounds={'quick': 'every history of k <= 3 tree operations after the initial state (3 member names) plus two scripted 5-operation histories (reading a member\'s data takes a symbolic while so that it can vanish before it is read, path deleted and re-created with the same member names), all with symbolic gaps and delivery delays', 'thorough': 'k <= 5 operations'},
+  bounds={'quick': 'every history of k <= 3 tree operations after the initial state (3 member names) plus two scripted 5-operation histories (reading a member\'s data takes a symbolic while so that it can vanish before it is read, path deleted and re-created with the same member names, an application thread calling get_members() with slow reads while members are deleted), all with symbolic gaps and delivery delays', 'thorough': 'k <= 5 operations'},
   outside=['real ZooKeeper session events (disconnect / expiry)', 'more than 3 distinct member names', 'malformed member data'],
   stubs=['in-memory znode tree + KazooClient subclass overriding get/exists/get_children/retry/start/stop (3.11); kazoo recipes are the real ones',
          'virtual loop (3.1)'],
   assumptions=['ZooKeeper delivers watch events to a client in the order the changes happened', 'A1, A3'],
 )
-EXPECT_COVERS = ['member-created', 'member-deleted', 'parent-deleted', 'parent-recreated', 'member-vanished-before-read', 'callback-raises']
+EXPECT_COVERS = ['members-listed-during-changes', 'member-created', 'member-deleted', 'parent-deleted', 'parent-recreated', 'member-vanished-before-read', 'callback-raises']
 
 NAMES = ['member_A', 'member_B', 'member_C']
 
@@ -92,7 +92,13 @@ class FakeZk(KazooClient):
     if watch: self.tree.data_w.setdefault(path, []).append(watch)
     return self.tree.stat(path) if path in self.tree.nodes else None
   def get(self, path, watch=None):
-    if self.read_delay is not None and path.count('/') >= 2:
+    if getattr(gevent.getcurrent(), 'slow_listing', None) is not None and path.count('/') >= 2:
+      d = gevent.getcurrent().slow_listing()      # a caller of get_members() reads member data slowly
+      if d is not None:
+        self.reads_in_progress += 1
+        try: gevent.sleep(d)
+        finally: self.reads_in_progress -= 1
+    elif self.read_delay is not None and path.count('/') >= 2:
       d = self.read_delay()             # reading a member's data takes a (symbolic) while: it may vanish meanwhile
       if d is not None:
         self.reads_in_progress += 1
@@ -112,7 +118,8 @@ class FakeZk(KazooClient):
 def jobs(tier):
   k = 3 if tier == 'quick' else 5
   scripts = {'vanish-then-recreate': ['create:member_B', 'delete:member_B', 'rmparent', 'mkparent', 'create:member_B'],
-             'recreate-same-names': ['create:member_B', 'rmparent', 'mkparent', 'create:member_A', 'create:member_B']}
+             'recreate-same-names': ['create:member_B', 'rmparent', 'mkparent', 'create:member_A', 'create:member_B'],
+             'list-while-member-deleted': ['getmembers', 'delete:member_A', 'create:member_B']}
   return [dict(name='history-script-%s' % n, k=len(ops), script=ops, raising=False, slow_reads=3 if n.startswith('vanish') else 0, cost=2000, shards=16, shard_depth=5) for n, ops in sorted(scripts.items())] + [
           dict(name='history-k%d' % k, k=k, raising=False, cost=5000, shards=32, shard_depth=6),
           dict(name='history-k%d-raising' % min(k, 3), k=min(k, 3), raising=True, cost=5000, shards=16, shard_depth=5)]
@@ -136,7 +143,7 @@ def make_body(job):
         return d if hdecide(d > 0) else None
       zk.read_delay = rd
     t.create('/svc'); t.create('/svc/member_A', member_blob(0))
-    view = {}; log = []; raised = []; aba = []; spans = []
+    view = {}; log = []; raised = []; aba = []; spans = []; listed = []
     will_raise = job['raising']
     raise_at = choose('raising_callback_index', 3) if will_raise else -1      # which delivered notification raises
     ncb = [0]
@@ -163,6 +170,18 @@ def make_body(job):
         for i, n in enumerate(NAMES):
           ops.append(('delete', n) if n in present else ('create', n))
         ops.append(('rmparent', None))
+      if job.get('script') and job['script'][step] == 'getmembers':
+        # an application thread lists the members (public get_members()) while the tree keeps changing; its reads of the
+        # member data take a symbolic while, so a member can vanish between being listed and being read
+        def lister():
+          def slow():
+            d = fresh_real('listing_read_takes%d' % len(listed), 0, 2)
+            return d if hdecide(d > 0) else None
+          gevent.getcurrent().slow_listing = slow
+          try: listed.append(sorted(m.name for m in ss.get_members()))
+          except Exception as ex: listed.append(ex)
+        gevent.spawn(lister); cover('members-listed-during-changes')
+        continue
       if job.get('script'):
         want = job['script'][step].split(':')
         cand = [o for o in ops if o[0] == want[0] and (len(want) == 1 or o[1] == want[1])]
